@@ -3,7 +3,12 @@
 Require Extraction.
 Require Import ExtrOcamlBasic.
 From Coq Require Import ZArith NArith List QArith Qcanon.
-Require Import Yui.Base.Ring Yui.Model.Snf.
+Require Import Yui.Base.Ring Yui.Model.Snf Yui.Model.Lll.
+
+(* SnfCalc::preprocess for the LLL rings: lll_hnf_in_place(target, [p.is_some(), pinv.is_some()]).
+   The fuel (calls of LLLHNFCalc::iterate) is supplied by the driver. *)
+Definition lll_pre {R : Type} (L : lll_ring R) (fuel : nat) : preproc R :=
+  fun _ _ f1 f2 A => lll_hnf L A (f1, f2) fuel.
 Extraction Language OCaml.
 Extraction "../ocaml/gen/c09_model.ml"
   Z.add N.add Nat.add
@@ -11,4 +16,5 @@ Extraction "../ocaml/gen/c09_model.ml"
   Snf.Z_dict Snf.Zpre_dict Snf.gauss_dict Snf.eisen_dict Snf.gausspre_dict Snf.eisenpre_dict
   Snf.Q_dict Snf.fp_dict Snf.F2_dict Snf.fp_mk Snf.fp_val Snf.pre_identity
   Qcanon.Q2Qc
+  lll_pre Lll.Z_lll Lll.G_lll Lll.E_lll
   Snf.chk_pq Snf.chk_inv Snf.chk_shape Snf.chk_minors Snf.det_divisor.
